@@ -487,6 +487,7 @@ var PyPIMarkers = []struct {
 	{`os_name == "nt" or sys_platform == "linux"`, func(map[string]bool) bool { return true }},
 	{`"x" == extra`, func(e map[string]bool) bool { return e["x"] }},
 	{`extra == "y"`, func(e map[string]bool) bool { return e["y"] }},
+	{`extra == "x" or python_version >= "3"`, func(map[string]bool) bool { return true }},
 }
 
 func pypiDef() sysDef {
@@ -545,7 +546,27 @@ func PyPISpaces() []*Space {
 		{vi("c", "2.0"), Req{Pkg: "a", Ver: ">=1.0", Env: `extra == "x"`}},
 		{vi("c", "2.0"), Req{Pkg: "b", Ver: ">=1.0", Env: `extra == "y"`}},
 	}
-	return []*Space{newSpace(d, "empty", nil), newSpace(d, "conflict", conflict), newSpace(d, "extras", extras)}
+	// cycle through a package that is also resolved as a root, required once by a specifier that names a prerelease
+	// and once by one that does not: what a resolver remembers about "a >=2.0rc1" while a@2.0 is the root (only the
+	// root version may be chosen) must not be what it answers when b or c is the root (3.0rc1 is admissible too)
+	cycle := []tmplReq{
+		{vi("a", "2.0"), Req{Pkg: "b", Ver: ""}},
+		{vi("a", "2.0"), Req{Pkg: "c", Ver: ""}},
+		{vi("b", "2.0"), Req{Pkg: "a", Ver: ">=1.0"}},
+		{vi("c", "2.0"), Req{Pkg: "a", Ver: ">=2.0rc1"}},
+		{vi("r", "1.0"), Req{Pkg: "b", Ver: ""}},
+		{vi("r", "1.0"), Req{Pkg: "c", Ver: ""}},
+	}
+	// re-pin without backtracking: a is pinned at 2.0 first, then b@2.0's requirement moves it to 1.0; both versions
+	// of a state the same requirement on c, so bookkeeping keyed by (requirement, parent package) confuses them
+	repin := []tmplReq{
+		{vi("r", "1.0"), Req{Pkg: "a", Ver: ""}},
+		{vi("r", "1.0"), Req{Pkg: "b", Ver: ""}},
+		{vi("a", "2.0"), Req{Pkg: "c", Ver: ">=1.0"}},
+		{vi("a", "1.0"), Req{Pkg: "c", Ver: ">=1.0"}},
+		{vi("b", "2.0"), Req{Pkg: "a", Ver: "<2.0"}},
+	}
+	return []*Space{newSpace(d, "empty", nil), newSpace(d, "conflict", conflict), newSpace(d, "extras", extras), newSpace(d, "cycle-pre", cycle), newSpace(d, "repin", repin)}
 }
 
 // AllSpaces lists every family.
